@@ -360,7 +360,7 @@ func checkSlash(c *core.Ctx) {
 			continue
 		}
 		var slashBase, subVol, subRes, slashRet *core.Site
-		for _, s := range core.SitesDeep(fn) {
+		for _, s := range c.GroupSites(fn) {
 			switch methodName(s) {
 			case "AddTotalSlashed":
 				// base branch passes `slashed`; custom branch passes the sale return
@@ -388,14 +388,14 @@ func checkSlash(c *core.Ctx) {
 		if slashBase != nil {
 			sl := core.Unwrap(slashBase.Arg(0))
 			compl := false
-			for _, s2 := range core.SitesDeep(fn) {
+			for _, s2 := range c.GroupSites(fn) {
 				if s2.Callee != "(*math/big.Int).Sub" || len(s2.Common.Args) != 3 || core.Unwrap(s2.Common.Args[0]) != sl {
 					continue
 				}
 				// the subtrahend is the kept value: it has a Mul and a Div applied in place
 				kept := core.Unwrap(s2.Common.Args[2])
 				mul, div := false, false
-				for _, s3 := range core.SitesDeep(fn) {
+				for _, s3 := range c.GroupSites(fn) {
 					if len(s3.Common.Args) > 0 && core.Unwrap(s3.Common.Args[0]) == kept {
 						switch s3.Callee {
 						case "(*math/big.Int).Mul":
